@@ -277,7 +277,7 @@ def run(repo, tier):
     rep.assumptions = ['the integer returned by a mnemonic binding (a module-level partial / entry of the INSTRUCTIONS table) fits its instruction width: theorem of C01 / C02',
                        'the reader (raw prefix of the line) and the parser (first token) select the same `include_bytes` lines']
     rep.trusted_base = ['CPython ast', 'bbverif.absint (abstract semantics of the Python subset used by asm.py, models of the standard library functions it calls)']
-    rep.not_decided = ['exceptions Python raises implicitly on malformed arity or syntax (tuple unpacking, tokens[3] IndexError, KeyError of a table lookup, '
+    rep.not_decided = ['exceptions Python raises implicitly on malformed arity or syntax (tuple unpacking, tokens[3] IndexError, KeyError of a table lookup keyed by a value read back from an item field (a lookup keyed by a raw user token is judged), '
                        'UnicodeDecodeError on a trailing backslash, ZeroDivisionError for align 0): where the code has a handler for them its body is '
                        'analysed, elsewhere they are not judged',
                        'duplicate label definitions are not refused at all, so the premise "when a program is refused" is never met for that class',
